@@ -130,6 +130,9 @@ theorem vm_bnot (prim : String → List Int → Int) (va : Val) (ha : ValOk .int
 theorem quantHolds_ok (q : Quant) (t n : Nat) : ValOk .bool (quantHolds q t n) := by
   cases q <;> simp [quantHolds, ValOk]
 
+theorem pctHolds_ok (t n : Nat) (v : Val) : ValOk .bool (pctHolds t n v) := by
+  cases v <;> simp [pctHolds, ValOk]
+
 theorem loopHolds_ok (q : Quant) (t n : Nat) : ValOk .bool (loopHolds q t n) := by
   cases q <;> simp only [loopHolds] <;> (try split) <;> simp [quantHolds, ValOk]
 
@@ -198,9 +201,9 @@ theorem wf_typed (env : Env) (c : Ctx) (l : LEnv) (e : Expr) (h : WF env c l e) 
     split
     · exact quantHolds_ok _ _ _
     · exact Or.inl rfl
-  | pctStr p set => simp [WF] at h
+  | pctStr p set => simp only [tyOf, eval]; exact pctHolds_ok _ _ _
   | ofRules q qe set => simp only [tyOf, eval]; exact quantHolds_ok _ _ _
-  | pctRules p set => simp [WF] at h
+  | pctRules p set => simp only [tyOf, eval]; exact pctHolds_ok _ _ _
   | forRange q qe lo hi body => simp only [tyOf, eval]; exact loopHolds_ok _ _ _
   | forEnum q qe items body => simp only [tyOf, eval]; exact loopHolds_ok _ _ _
   | forOf q qe set body => simp only [tyOf, eval]; exact loopHolds_ok _ _ _
